@@ -26,7 +26,7 @@ func registerStall(c *mon.Ctx, ps *procState) {
 	if !want("stall") {
 		return
 	}
-	c.Family("stall", c.N(2, 28), func(k *mon.Case) { runStall(k, ps) })
+	c.Family("stall", c.N(3, 28), func(k *mon.Case) { runStall(k, ps) })
 	c.Require("stall.disconnected-by-stall-handler", 1)
 }
 
